@@ -269,6 +269,64 @@ func c12Scenario(c *Ctx, idx int, r *Rng) (mline, mimpl, mcase string) {
 			sel = c12Sel{nil, func(p string, _ int) bool { return strings.HasSuffix(p, ".bin") }, "no-rewrite *.bin"}
 		}
 	}
+	// ---- which commits are in scope: everything, or the history of some refs minus the history of others
+	var scope map[string]bool // nil = every commit
+	refScope := ""
+	if !noRewrite && r.Chance(30) {
+		var heads []string
+		for _, l := range strings.Split(w.must("for-each-ref", "--format=%(refname)", "refs/heads"), "\n") {
+			if l = strings.TrimSpace(l); l != "" {
+				heads = append(heads, l)
+			}
+		}
+		sort.Strings(heads)
+		inc := Pick(r, heads)
+		exc := ""
+		if len(heads) > 1 && r.Chance(60) {
+			if exc = Pick(r, heads); exc == inc {
+				exc = ""
+			}
+		}
+		// refs that share their short name with a tag cannot be named by it
+		short := func(ref string) string { return strings.TrimPrefix(ref, "refs/heads/") }
+		ambiguous := func(ref string) bool {
+			_, code := w.git("rev-parse", "-q", "--verify", "refs/tags/"+short(ref))
+			return code == 0
+		}
+		var refArgs []string
+		style := Pick(r, []string{"positional", "flags"})
+		if ambiguous(inc) || (exc != "" && ambiguous(exc)) {
+			style = "flags"
+		}
+		if style == "positional" {
+			refArgs = append(refArgs, short(inc))
+			if exc != "" {
+				refArgs = append(refArgs, "^"+short(exc)) // the manual: "References beginning with ^ will be excluded"
+			}
+		} else {
+			refArgs = append(refArgs, "--include-ref="+inc)
+			if exc != "" {
+				refArgs = append(refArgs, "--exclude-ref="+exc)
+			}
+		}
+		rl := []string{"rev-list", inc}
+		if exc != "" {
+			rl = append(rl, "--not", exc)
+		}
+		scope = map[string]bool{}
+		for _, cm := range strings.Fields(w.must(rl...)) {
+			scope[cm] = true
+		}
+		var keep []string
+		for _, a := range sel.args {
+			if a != "--everything" {
+				keep = append(keep, a)
+			}
+		}
+		sel.args = append(keep, refArgs...)
+		refScope = strings.Join(refArgs, " ")
+		c.R.Count("import.ref-scope." + style)
+	}
 	if !noRewrite {
 		args = append([]string{"migrate", "import", "--yes", "--object-map=" + mapFile}, sel.args...)
 	}
@@ -367,12 +425,20 @@ func c12Scenario(c *Ctx, idx int, r *Rng) (mline, mimpl, mcase string) {
 			fail("a commit of the original history has no image after migrate import", oid, "")
 			continue
 		}
+		if scope != nil && !scope[oid] && image(oid) != oid {
+			fail("migrate import rewrote a commit outside the references it was given", oid[:8]+" ("+refScope+")", "")
+		}
 		if nc.header != oc.header {
 			fail("migrate import changed authorship, dates, extra headers or the message of a commit", fmt.Sprintf("%s:\n%s\n--- vs ---\n%s", oid[:8], clip(oc.header, 200), clip(nc.header, 200)), "")
 		}
+		inScope := scope == nil || scope[oid]
 		var wantParents []string
 		for _, p := range oc.parents {
-			wantParents = append(wantParents, image(p))
+			if inScope {
+				wantParents = append(wantParents, image(p))
+			} else {
+				wantParents = append(wantParents, p) // a commit outside the given references is the same object as before
+			}
 		}
 		if strings.Join(wantParents, " ") != strings.Join(nc.parents, " ") {
 			fail("migrate import changed the shape of the commit graph (parents are not the images of the original parents)", oid[:8], "")
@@ -404,7 +470,7 @@ func c12Scenario(c *Ctx, idx int, r *Rng) (mline, mimpl, mcase string) {
 				fail("migrate import changed the content of a path (after resolving pointers through local storage)", fmt.Sprintf("%s %s: %d bytes -> %d bytes", oid[:8], e.path, len(a), len(b)), "")
 			}
 			raw, _ := blobCache[e.blob]
-			selected := e.typ == "blob" && e.mode != "120000" && sel.match(e.path, len(raw))
+			selected := e.typ == "blob" && e.mode != "120000" && sel.match(e.path, len(raw)) && (scope == nil || scope[oid])
 			conv := selected && !aptr && len(raw) > 0
 			if conv && !bptr {
 				fail("a selected path was not converted to an LFS pointer", fmt.Sprintf("%s %s", oid[:8], e.path), "")
@@ -412,10 +478,12 @@ func c12Scenario(c *Ctx, idx int, r *Rng) (mline, mimpl, mcase string) {
 			if !conv && ne.blob != e.blob {
 				fail("migrate import changed the representation of a path that was not selected", fmt.Sprintf("%s %s", oid[:8], e.path), "")
 			}
-			if prev, ok := newBlobOf[bkey{e.path, e.blob}]; ok && prev != ne.blob {
-				fail("the same (path, blob) was rewritten to two different blobs in two commits", e.path, "")
+			if inScope {
+				if prev, ok := newBlobOf[bkey{e.path, e.blob}]; ok && prev != ne.blob {
+					fail("the same (path, blob) was rewritten to two different blobs in two commits", e.path, "")
+				}
+				newBlobOf[bkey{e.path, e.blob}] = ne.blob
 			}
-			newBlobOf[bkey{e.path, e.blob}] = ne.blob
 			// model vocabulary
 			if selected {
 				allowBits[pid(e.path)] = true
@@ -439,8 +507,10 @@ func c12Scenario(c *Ctx, idx int, r *Rng) (mline, mimpl, mcase string) {
 				fail("migrate import added a path other than the root .gitattributes to a commit", p, "")
 			}
 		}
-		modelCommits = append(modelCommits, joinOrDash(mo))
-		implCommits = append(implCommits, joinOrDash(mi))
+		if inScope { // the model rewrites the commits it is given: those the command was asked to rewrite
+			modelCommits = append(modelCommits, joinOrDash(mo))
+			implCommits = append(implCommits, joinOrDash(mi))
+		}
 	}
 	// ---- refs and tags
 	for _, l := range strings.Split(oldRefs, "\n") {
@@ -535,6 +605,10 @@ func c12Scenario(c *Ctx, idx int, r *Rng) (mline, mimpl, mcase string) {
 		cv = append(cv, k)
 	}
 	sort.Strings(cv)
+	if len(modelCommits) == 0 {
+		c.R.Count("import.ref-scope.empty")
+		return "", "", "" // nothing was in scope: nothing to rewrite, nothing for the model to say
+	}
 	mline = fmt.Sprintf("C12 rewrite %s %s %s", joinOrDash(ab), joinOrDash(cv), strings.Join(modelCommits, "|"))
 	mimpl = strings.Join(implCommits, "|")
 	mcase = enc
